@@ -923,7 +923,7 @@ def _register_shared():
          trusted=["groupby contract", "np.digitize"])(_C10.u_build)
 
 
-_register_shared()
+# _register_shared() is called by the driver after this module is fully imported (no import cycles)
 
 
 # ---------------------------------------------------------------------------------------------------------
